@@ -77,3 +77,52 @@ def op_targets(uni: Universe, op: dict) -> tuple[list[str], set[int]]:
         if a["p"] in dir_to_root:
             vis.add(dir_to_root[a["p"]])
     return targets, vis
+
+
+def model_verdict(uni: Universe, targets: list[str], vis: set[int], allow_unregulated: bool = False) -> tuple[list[str], list[str]]:
+    """(must-reject reasons, open reasons) for one read, from the abstract model only.
+
+    must-reject: a reference without a visible definition, any static-rule problem of a definition in the closure, any
+    cross-definition problem among direct+transitive. open (either verdict accepted): a direct definition's port-ID
+    colliding with a transitive one's; attribute names differing only by case."""
+    from ..model import types as T
+    closure = uni.closure(targets, vis)
+    reasons: list[str] = []
+    opens: list[str] = []
+    for a, b in uni.missing_refs(targets, vis):
+        reasons.append("undefined:%s->%s" % (a, b))
+    for k in sorted(closure):
+        d = uni.defs[k]
+        # unregulated port-IDs are only checked for what is actually read
+        for p in rules.static_problems(uni.res, d, allow_unregulated):
+            if p.startswith("undefined:"):
+                continue
+            reasons.append("%s:%s" % (k, p))
+        for s in d["secs"]:
+            names = [it[2].lower() for it in s["items"] if it[0] in ("f", "c")]
+            exact = [it[2] for it in s["items"] if it[0] in ("f", "c")]
+            if len(set(names)) != len(names) and len(set(exact)) == len(exact):
+                opens.append("%s:attr-case" % k)
+    direct = [k for k in targets if k in uni.defs]
+    trans = sorted(closure - set(direct))
+    if not reasons:
+        reasons += rules.cross_problems(uni.res, direct, trans)
+        td = [uni.defs[k] for k in trans]
+        for a in direct:
+            for b in td:
+                if rules.port_collision(uni.defs[a], b):
+                    opens.append("port-collision-with-transitive:%s/%s" % (a, T.def_key(b)))
+    # cycles
+    for k in sorted(closure):
+        seen = set()
+        todo = list(T.def_refs(uni.defs[k]))
+        while todo:
+            x = todo.pop()
+            if x == k:
+                reasons.append("%s:cycle" % k)
+                break
+            if x in seen or x not in uni.defs:
+                continue
+            seen.add(x)
+            todo.extend(T.def_refs(uni.defs[x]))
+    return reasons, opens
